@@ -356,6 +356,13 @@ PARAMS = {'MC_C18_a.cfg': (5, 2, 1, []), 'MC_C18_b.cfg': (5, 3, 2, []), 'MC_C18_
 def main(ctx):
     quick = ctx.tier == 'quick'
     rng = ctx.rng
+    # process pools are created by the library with the default start method; fork()ing a process that has (or had) threads can
+    # deadlock in a child (observed: a thorough run hung for over an hour), so workers are started from a clean fork server
+    import multiprocessing
+    try:
+        multiprocessing.set_start_method('forkserver', force=True)
+    except Exception as e:
+        ctx.note('could not select the forkserver start method: %r' % (e,))
     for c in CFGS:
         ctx.model_check('MC_C18', c, timeout=3000)
     ctx.model_check('MC_C18', 'MC_C18_neg.cfg', expect_violation='InvComplete', coverage=False, label='negative control: lazy submission')
@@ -387,15 +394,15 @@ def main(ctx):
         delays = {i: rng.choice([0, 1, 2, 3, 5]) * UNIT for i in range(1, n + 1)}
         runs.append(traced_run(n, w, delays, fails, items_form=rng.random() < 0.4))
         ctx.count('V_traced_thread_runs')
-    for _ in range(6 if quick else 120):
+    for _ in range(6 if quick else 50):
         for name, mk, fn in iface_cases(rng):
             runs.append(generic_run(rng, name, mk, fn))
             ctx.count('V_iface_runs')
-    for _ in range(25 if quick else 600):
+    for _ in range(25 if quick else 400):
         runs.append(batch_run(rng))
         ctx.count('V_batch_runs')
     workdir = tlc.subdir('c18-stores')
-    for k in range(25 if quick else 600):
+    for k in range(25 if quick else 300):
         runs.append(store_run(rng, workdir, k))
         ctx.count('V_store_runs')
     events = []
